@@ -547,7 +547,7 @@ pub fn core_exp(e: &PreExp, lexeme: bool) -> bool {
         PreExp::Variable(n) => plain_var(n.value()),
         PreExp::CompoundVariable(c) => plain_run_s(&c.name) && !c.indexes.is_empty() && core_idx(&c.indexes, lexeme),
         PreExp::ArrayAccess(a) => plain_run_s(&a.name) && a.name != "not" && !a.accesses.is_empty() && a.accesses.iter().all(|x| core_exp(x, lexeme)),
-        PreExp::FunctionCall(_, f) => !range_sugar(f) && f.name != "not" && !f.name.is_empty() && f.name.chars().all(is_letter) && f.args.iter().all(|x| core_exp(x, lexeme)),
+        PreExp::FunctionCall(_, f) => f.name != "not" && !f.name.is_empty() && f.name.chars().all(is_letter) && f.args.iter().all(|x| core_exp(x, lexeme)),
         PreExp::BlockFunction(b) => !b.exps.is_empty() && (b.kind.to_string() != "abs" || b.exps.len() == 1) && b.exps.iter().all(|x| core_exp(x, lexeme)),
         PreExp::BlockScopedFunction(b) => core_for(&b.iters, lexeme) && !b.iters.is_empty() && core_exp(&b.exp, lexeme),
         PreExp::UnaryOperation(_, x) => core_exp(x, lexeme),
@@ -556,7 +556,20 @@ pub fn core_exp(e: &PreExp, lexeme: bool) -> bool {
 }
 fn core_idx(idx: &[PreExp], lexeme: bool) -> bool {
     idx.iter().all(|e| match e {
-        PreExp::Primitive(p) if matches!(p.value(), Primitive::Number(_) | Primitive::String(_)) => false,
+        // twin of `numIndexBare` / `strIndexBare`: an index the printer writes bare is outside (it is read back as
+        // an integer / a variable), one written in braces is inside
+        PreExp::Primitive(p) if matches!(p.value(), Primitive::Number(_)) => {
+            let t = match p.value() { Primitive::Number(v) => number_text(*v), _ => unreachable!() };
+            // (in `lexeme` mode the model sees the source text, a float literal: never bare)
+            let bare = !lexeme && (t == "-0" || (!t.is_empty() && t.chars().all(|c| c.is_ascii_digit()) && t.parse::<u128>().map(|v| v < 9223372036854775808).unwrap_or(false)));
+            !bare && core_exp(e, lexeme)
+        }
+        PreExp::Primitive(p) if matches!(p.value(), Primitive::String(_)) => {
+            let s = match p.value() { Primitive::String(s) => s.clone(), _ => unreachable!() };
+            let rest = s.trim_start_matches('_');
+            let bare = s.starts_with('_') && !rest.is_empty() && rest.chars().all(|c| is_letter(c) || c.is_ascii_digit());
+            !bare && core_exp(e, lexeme)
+        }
         PreExp::Variable(n) => plain_run_s(n.value()),
         other => core_exp(other, lexeme),
     })
@@ -587,7 +600,7 @@ fn first_word(e: &PreExp) -> Option<String> {
         PreExp::Variable(n) => Some(n.value().clone()),
         PreExp::CompoundVariable(c) => Some(c.name.clone()),
         PreExp::ArrayAccess(a) => Some(a.name.clone()),
-        PreExp::FunctionCall(_, f) => if range_sugar(f) { if !matches!(&f.args[0], PreExp::BinaryOperation(..) | PreExp::UnaryOperation(..)) { first_word(&f.args[0]) } else { None } } else { Some(f.name.clone()) },
+        PreExp::FunctionCall(_, f) => Some(f.name.clone()),
         PreExp::BlockFunction(b) => Some(b.kind.to_string()),
         PreExp::BlockScopedFunction(b) => Some(b.kind.to_string()),
         PreExp::UnaryOperation(op, _) => if matches!(**op, rooc::UnOp::Not) { Some("not".into()) } else { None },
